@@ -119,6 +119,27 @@ def ns_to_str(ns):
 
 
 # ------------------------------------------------------------------------------------------------ world helpers
+class AWorld(World):
+    """World with a denser clock: consecutive instants are 0.1–0.9 s apart, so several snapshots fall into the same printed
+    second (the stored timestamps stay pairwise different and increasing); `whole_second` jumps to the next full second, whose
+    string form has no fraction."""
+    _us = 0
+    jitter = None
+
+    def tick(self, whole_second=False):
+        from .world import FakeDatetime
+        self.clock += 1
+        if whole_second:
+            self._us = (self._us // 1_000_000 + 1) * 1_000_000
+        else:
+            step = self.jitter.choice([100_003, 370_001, 900_017, 250_000, 1_300_000, 6_000_000]) if self.jitter is not None else 370_001
+            self._us += step
+            if self._us % 1_000_000 == 0:
+                self._us += 1
+        FakeDatetime._now = _dt.datetime(2030, 1, 1) + _dt.timedelta(microseconds=self._us)
+        return self.clock
+
+
 def add_user(w, kind, base, kdf, password):
     """World.add_user with chosen KDF settings and password (World's own uses one fixed KDF)"""
     b = w.users[base]
@@ -237,13 +258,13 @@ def observe_user(w, ui, r, viol, step_no, extra):
             if c == 'name':
                 pr.append(name2sid.get(v, 'unknown:' + v[:12]))
             elif c == 'timestamp':
-                cand = [d['ts'] for d in w.snap_by_sid.values() if sec(d['ts_string']) == v]
-                pr.append(None if v == EMPTY else (cand[0] if cand else 'unknown:' + v))
+                pr.append(None if v == EMPTY else v)
             elif c == 'file_count':
                 pr.append(None if v == EMPTY else int(v) if v.isdigit() else 'bad:' + v)
         impl_rows.append(pr)
     queries.append({'kind': 'list', 'user': mu, 'sre': w.sids_matching(sre)})
-    impl.append({'kind': 'list', 'cols': cols, 'rows': impl_rows, 'error': lerr, 'regex': sre})
+    tsmap = {str(d['ts']): sec(d['ts_string']) for d in w.snap_by_sid.values()}
+    impl.append({'kind': 'list', 'cols': cols, 'rows': impl_rows, 'error': lerr, 'regex': sre, 'tsmap': tsmap})
 
     # ---------------- printed names are accepted by the snapshot filter
     named = [row[cols.index('name')] for row in rows if 'name' in cols and len(row) == len(cols)]
@@ -306,15 +327,14 @@ def observe_user(w, ui, r, viol, step_no, extra):
         pr = []
         for c, v in zip(cols, row):
             if c == 'snapshot_date':
-                cand = [d['ts'] for d in w.snap_by_sid.values() if sec(d['ts_string']) == v]
-                pr.append(cand[0] if cand else 'unknown:' + v)
+                pr.append(v)
             elif c == 'path':
                 pr.append(w.paths.get(v, 'unknown:' + v[-12:]))
             elif c == 'digest':
                 pr.append(dig2ver.get(v, 'unknown:' + v[:12]))
         impl_rows.append(pr)
     queries.append({'kind': 'listfiles', 'user': mu, 'sre': w.sids_matching(sre), 'fre': w.pids_matching(fre)})
-    impl.append({'kind': 'listfiles', 'cols': cols, 'rows': impl_rows, 'error': ferr, 'regex': [sre, fre]})
+    impl.append({'kind': 'listfiles', 'cols': cols, 'rows': impl_rows, 'error': ferr, 'regex': [sre, fre], 'tsmap': tsmap})
 
     # ---------------- restore
     rerr, tree = w.restore(ui, snapshot_regex=sre2, file_regex=fre)
@@ -409,7 +429,8 @@ def run_world(arg):
     log = {'idx': idx, 'cfg': cfg, 'steps': [], 'violations': [], 'flags': set(), 'mode': mode, 'extra': {}, 'label': label, 'n_ops': n_ops}
     viol = log['violations']
     with R.Scratch(f'w_{label}_{idx}') as sc:
-        w = World(sc, enc=cfg['enc'], chunking=cfg['chunking'], concurrent=cfg['concurrent'], cipher=cfg['cipher'], async_backend=cfg['async_backend'])
+        w = AWorld(sc, enc=cfg['enc'], chunking=cfg['chunking'], concurrent=cfg['concurrent'], cipher=cfg['cipher'], async_backend=cfg['async_backend'])
+        w.jitter = rng_for(seed, label, idx, 'clock')
         for x in cfg['users']:
             add_user(w, x['kind'], x['base'], KDFS[x['kdf']], PASSWORDS[x['password']])
         if cfg['enc']:
@@ -550,7 +571,7 @@ def run_world(arg):
 
 
 # ------------------------------------------------------------------------------------------------ comparison with the model
-def project_model_list(cols, rows):
+def project_model_list(cols, rows, tsmap):
     out = []
     for sid, ts, files in rows:
         pr = []
@@ -558,20 +579,20 @@ def project_model_list(cols, rows):
             if c == 'name':
                 pr.append(sid)
             elif c == 'timestamp':
-                pr.append(ts)
+                pr.append(None if ts is None else tsmap.get(str(ts), 'unknown-ts:%s' % ts))
             elif c == 'file_count':
                 pr.append(files)
         out.append(pr)
     return out
 
 
-def project_model_files(cols, rows):
+def project_model_files(cols, rows, tsmap):
     out = []
     for ts, pid, ver in rows:
         pr = []
         for c in cols:
             if c == 'snapshot_date':
-                pr.append(ts)
+                pr.append(tsmap.get(str(ts), 'unknown-ts:%s' % ts))
             elif c == 'path':
                 pr.append(pid)
             elif c == 'digest':
@@ -589,13 +610,13 @@ def compare_obs(o, m):
     if o.get('error') is not None:
         return [] if o['error'] == m.get('error') else [f'{o["kind"]}: error kind model {m.get("error")} implementation {o["error"]}']
     if o['kind'] == 'list':
-        mr = project_model_list(o['cols'], m['rows'])
+        mr = project_model_list(o['cols'], m['rows'], o['tsmap'])
         n_read = sum(1 for row in m['rows'] if row[1] is not None)
         a_read, a_un = o['rows'][:n_read], o['rows'][n_read:]
         if a_read != mr[:n_read] or sorted(map(str, a_un)) != sorted(map(str, mr[n_read:])):
             return [f'list-snapshots(regex {o["regex"]!r}, columns {o["cols"]}): model {mr[:4]} implementation {o["rows"][:4]}']
     elif o['kind'] == 'listfiles':
-        mr = project_model_files(o['cols'], m['rows'])
+        mr = project_model_files(o['cols'], m['rows'], o['tsmap'])
         if o['rows'] != mr:
             return [f'list-files(regexes {o["regex"]}, columns {o["cols"]}): model {mr[:4]} implementation {o["rows"][:4]}']
     elif o['kind'] == 'restore':
